@@ -403,7 +403,7 @@ func gen(out string) error {
 	sb.WriteString("(* GENERATED by `harness/cmd/c16 gen` from the protocol.ProtocolConfig values the real\n")
 	sb.WriteString("   NewClient/NewServer constructors build (state map, initial state, MatchFuncs sampled\n")
 	sb.WriteString("   per guard class) and from NewMsgFromCbor's cases (go/ast).  Do not edit. *)\n")
-	sb.WriteString("From Coq Require Import String.\nFrom V Require Import Lib.Base Lib.Automata.\nLocal Open Scope string_scope.\n\n")
+	sb.WriteString("From Coq Require Import String.\nFrom V Require Import Lib.Base Lib.Automata.\n(* end of imports - keep a comment here: bin/check scans the import lines with a regex that must stop at a non-word character *)\nLocal Open Scope string_scope.\n\n")
 	var names []string
 	for _, ex := range exs {
 		for _, a := range ex.Auts {
